@@ -208,6 +208,11 @@ class CompositeFrontend(ConstrainedFrontend):
             self._owned_solvers.add(ns)
             self._store_child(ns)
 
+        # variables that no part constrains any more must not keep pointing at the solver that was split
+        for v in s.variables:
+            if self._solvers.get(v) is s:
+                del self._solvers[v]
+
         return ss
 
     def _reabsorb_solver(self, s):
@@ -476,6 +481,15 @@ class CompositeFrontend(ConstrainedFrontend):
         if common_ancestor is not None:
             return self._merge_with_ancestor(common_ancestor, merge_conditions)
 
+        # a participant that is concretely unsatisfiable contributes no models, whatever its children say
+        participants = [(cs, c) for cs, c in zip([self, *others], merge_conditions, strict=False) if not cs._unsat]
+        if len(participants) != 1 + len(others):
+            if not participants:
+                merged = self.blank_copy()
+                merged.add([false()])
+                return True, merged
+            return participants[0][0].merge([cs for cs, _ in participants[1:]], [c for _, c in participants])
+
         log.debug("Merging %s with %d other solvers.", self, len(others))
         merged = self.blank_copy()
         common_solvers = self._shared_solvers(others)
@@ -507,8 +521,13 @@ class CompositeFrontend(ConstrainedFrontend):
         if len(combined_noncommons):
             _, merged_noncommon = combined_noncommons[0].merge(combined_noncommons[1:], merge_conditions)
 
-            merged._owned_solvers.add(merged_noncommon)
-            merged._store_child(merged_noncommon)
+            if any(v in merged._solvers for v in merged_noncommon.variables):
+                # it mentions variables of a shared child (e.g. through a merge condition): join it with that child
+                # instead of replacing the child's entry for those variables
+                merged.add(merged_noncommon.constraints)
+            else:
+                merged._owned_solvers.add(merged_noncommon)
+                merged._store_child(merged_noncommon)
 
         merged.constraints = list(itertools.chain.from_iterable(a.constraints for a in merged._solver_list))
         return True, merged
